@@ -465,6 +465,54 @@ def _num_compare(eq):
     return compare
 
 
+def _strip_trace(io):
+    return {k: v for k, v in io.items() if k != "trace"} if isinstance(io, dict) else io
+
+
+def _compare_to_tags(inp, io, mo):
+    """exact; a mismatch is labelled with the rung of the cascade the input exercises (one replay per rung)"""
+    if _strip_trace(io) == mo:
+        return None
+    o = inp.get("opts") or {}
+    lab = inp["label"]
+
+    def hit(m):
+        return m is not None and any(k == lab for k, _ in m)
+    if lab in (o.get("empty_labels") or ["__empty__"]):
+        return "empty label: implementation and model disagree"
+    if o.get("tag_fn") is not None:
+        return "tag_fn rung: implementation and model disagree"
+    if hit(o.get("term_mapping")):
+        return "term_mapping hit: implementation and model disagree"
+    if hit(o.get("tag_mapping")):
+        return ("tag_mapping hit with an explicit term: the documented cascade returns the mapped tags" if o.get("term") is not None
+                else "tag_mapping hit: implementation and model disagree")
+    if o.get("term") is not None:
+        return "explicit term: implementation and model disagree"
+    if hit(o.get("key_mapping")):
+        return "key_mapping hit: implementation and model disagree"
+    if o.get("key") is not None:
+        return ("explicit key after a key_mapping miss: the documented cascade keeps the explicit key" if o.get("key_mapping") is not None
+                else "explicit key: implementation and model disagree")
+    return "fallback key: implementation and model disagree"
+
+
+def _compare_from_tags(inp, io, mo):
+    if _strip_trace(io) == mo:
+        return None
+    o = inp.get("opts") or {}
+    if o.get("seq_label_fn") is not None:
+        return "seq_label_fn rung: implementation and model disagree"
+    if not inp["tags"]:
+        return "no tags: implementation and model disagree"
+    if o.get("select_by_key") is not None:
+        return ("select_by_key together with value_only: the documented cascade returns the value of the first match"
+                if o.get("value_only") is not None else "select_by_key: implementation and model disagree")
+    if o.get("index") is not None:
+        return "index rung: implementation and model disagree"
+    return "join rung: implementation and model disagree"
+
+
 def _drop_samples(x):
     if isinstance(x, dict):
         return {k: _drop_samples(v) for k, v in x.items() if k not in ("onset_sample", "offset_sample", "trace")}
@@ -626,9 +674,9 @@ _holds_rt_sequence, _holds_rt_annotation = _safe(_holds_rt_sequence), _safe(_hol
 
 OPS = {
     "term_key": Op("term_key", _impl_term_key),
-    "label_to_tags": Op("label_to_tags", _impl_label_to_tags),
+    "label_to_tags": Op("label_to_tags", _impl_label_to_tags, compare=_compare_to_tags),
     "label_from_tag": Op("label_from_tag", _impl_label_from_tag),
-    "label_from_tags": Op("label_from_tags", _impl_label_from_tags),
+    "label_from_tags": Op("label_from_tags", _impl_label_from_tags, compare=_compare_from_tags),
     "import_segment": Op("import_segment", _impl_import_segment),
     "import_segment_r1": Op("import_segment_r1", _impl_import_segment, model_op="import_segment",
                             compare=_num_compare(round_once_eq), mode="round-once"),
